@@ -58,6 +58,10 @@ type c07Cfg struct {
 	// harness server can only fail: what is judged is that nothing follows a failed handshake and that the password
 	// never travels over the unencrypted connection.
 	Quick bool `json:"quick,omitempty"`
+	// PortPol: the policy is given through the *Port* variants on a Client that already has a custom port and the
+	// OPPOSITE policy: 1 = options WithTLSPolicy(opposite), WithPort(2525), WithTLSPortPolicy(policy); 2 = constructed
+	// with WithTLSPolicy(opposite), WithPort(2525) and then SetTLSPortPolicy(policy)
+	PortPol int `json:"portpol,omitempty"`
 }
 
 // c07FBMu serialises the fallback-port cases of one process (they listen on the fixed port 25 of a
@@ -295,6 +299,18 @@ func c07Exec(r *vf.Run, cfg c07Cfg) []finding {
 		}}
 		opts = append(opts, mail.WithDialContextFunc(rig.Dial))
 		switch {
+		case cfg.PortPol > 0:
+			pol := []mail.TLSPolicy{mail.TLSMandatory, mail.TLSOpportunistic, mail.NoTLS}[cfg.Policy]
+			opp := mail.NoTLS
+			if cfg.Policy == 2 {
+				opp = mail.TLSMandatory
+			}
+			opts = append(opts, mail.WithTLSPolicy(opp), mail.WithPort(2525))
+			if cfg.PortPol == 1 {
+				opts = append(opts, mail.WithTLSPortPolicy(pol))
+			} else {
+				post = append(post, func(c *mail.Client) { c.SetTLSPortPolicy(pol) })
+			}
 		case cfg.Setters && cfg.FB == 3:
 			// a fallback port left behind by an earlier port policy: constructed with WithTLSPortPolicy(opportunistic)
 			// (port 587, fallback 25), then the policy is changed through SetTLSPolicy — the fallback port stays
@@ -500,6 +516,9 @@ func c07Exec(r *vf.Run, cfg c07Cfg) []finding {
 	if cfg.Unix && len(conn.ClientBytes) > 0 {
 		r.Outcome("unix-socket-used/" + pol)
 	}
+	if cfg.PortPol > 0 && len(sess.Transcript) > 0 {
+		r.Outcome(fmt.Sprintf("port-policy-variant/%d", cfg.PortPol))
+	}
 	if cfg.Setters && (len(sess.Transcript) > 1 || handshakeDone) {
 		r.Outcome("configured-through-setters")
 	}
@@ -516,7 +535,7 @@ func init() {
 	vf.Register(&vf.Check{
 		ID: "C07", Title: "TLS policy and credential confidentiality hold against any server",
 		Run: func(r *vf.Run) {
-			r.SetRule("the full product TLS policy {mandatory, opportunistic, none, implicit (go-mail's own TLS dialer over a loopback bridge)} × 13 auth types × (mandatory/opportunistic) WithTLSPortPolicy with the primary port refusing (also with the policy changed afterwards through SetTLSPolicy, which leaves the fallback port in place) × (implicit TLS) a Client that first dialled without TLS and was then switched over with SetSSL(true) × the QuickSend entry point (own Client, opportunistic TLS, auto-discovery) against plain and STARTTLS servers × every policy with the server behind a UNIX domain socket (unix:// host, go-mail's own dialer) × (implicit TLS) a plain connection supplied by the caller's own dial function (password clauses only) × (implicit TLS) fallback enabled with the primary port refusing and the fallback port 25 served by a plain-text or an implicit-TLS server × configuration through options or through the Client's setters (after construction with the opposite settings) × host name {mail.example.test, five remote names that resemble loopback names (localhost.example.test, 127.0.0.1.example.test, …), localhost, 127.0.0.1} × server behaviour {STARTTLS advertised or not; reply 220 / 454 / 501 / garbage / 220 followed by injected plaintext; handshake ok / wrong-name certificate / untrusted certificate / garbage; 7 advertised AUTH lists}, each executed with real crypto/tls handshakes where reached; oracle on the byte tap of everything the client wrote before/after the switch to TLS; distinct by configuration")
+			r.SetRule("the full product TLS policy {mandatory, opportunistic, none, implicit (go-mail's own TLS dialer over a loopback bridge)} × 13 auth types × (mandatory/opportunistic) WithTLSPortPolicy with the primary port refusing (also with the policy changed afterwards through SetTLSPolicy, which leaves the fallback port in place) × (implicit TLS) a Client that first dialled without TLS and was then switched over with SetSSL(true) × the QuickSend entry point (own Client, opportunistic TLS, auto-discovery) against plain and STARTTLS servers × every policy with the server behind a UNIX domain socket (unix:// host, go-mail's own dialer) × (implicit TLS) a plain connection supplied by the caller's own dial function (password clauses only) × (implicit TLS) fallback enabled with the primary port refusing and the fallback port 25 served by a plain-text or an implicit-TLS server × the policy given through WithTLSPortPolicy / SetTLSPortPolicy on a Client that already has a custom port and the opposite policy × configuration through options or through the Client's setters (after construction with the opposite settings) × host name {mail.example.test, five remote names that resemble loopback names (localhost.example.test, 127.0.0.1.example.test, …), localhost, 127.0.0.1} × server behaviour {STARTTLS advertised or not; reply 220 / 454 / 501 / garbage / 220 followed by injected plaintext; handshake ok / wrong-name certificate / untrusted certificate / garbage; 7 advertised AUTH lists}, each executed with real crypto/tls handshakes where reached; oracle on the byte tap of everything the client wrote before/after the switch to TLS; distinct by configuration")
 			r.Assume("a completed server-side handshake implies the client accepted the certificate (TLS 1.2/1.3 semantics)", "implicit TLS is only exercised against loopback addresses (go-mail's dialer needs a real socket; the fallback cases listen on port 25 of 127.x.y.z)")
 			var cfgs []c07Cfg
 			for pol := 0; pol < 4; pol++ {
@@ -587,6 +606,11 @@ func init() {
 										if hostIdx == 0 && c07Auths[a] != "none" && !strings.HasPrefix(c07Auths[a], "CUSTOM") {
 											cfgs = append(cfgs, c07Cfg{Policy: pol, Auth: a, Local: local, HostIdx: hostIdx, Adv: adv, STReply: st, HS: hs, AuthList: al, Setters: true})
 										}
+										if hostIdx == 0 && (st == 0 || st == 1) && hs == 0 {
+											for pp := 1; pp <= 2; pp++ {
+												cfgs = append(cfgs, c07Cfg{Policy: pol, Auth: a, Local: local, HostIdx: hostIdx, Adv: adv, STReply: st, HS: hs, AuthList: al, PortPol: pp})
+											}
+										}
 										if hostIdx == 0 && pol <= 1 && (st == 0 || st == 1) {
 											// WithTLSPortPolicy: the first dial is refused, the fallback connection is judged
 											cfgs = append(cfgs, c07Cfg{Policy: pol, Auth: a, Local: local, HostIdx: hostIdx, Adv: adv, STReply: st, HS: hs, AuthList: al, FB: 3})
@@ -636,7 +660,7 @@ func init() {
 					})
 				}
 			})
-			r.Reached("fallback-connection-used/fb=1", "fallback-connection-used/fb=2", "fallback-connection-used/fb=3", "fallback-connection-used/fb=4", "fallback-connection-used/fb=5", "unix-socket-used/mandatory", "unix-socket-used/opportunistic", "unix-socket-used/none", "unix-socket-used/implicit", "quicksend-dialogue", "quicksend-authenticated", "configured-through-setters", "second-dial-judged",
+			r.Reached("fallback-connection-used/fb=1", "fallback-connection-used/fb=2", "fallback-connection-used/fb=3", "fallback-connection-used/fb=4", "fallback-connection-used/fb=5", "unix-socket-used/mandatory", "unix-socket-used/opportunistic", "unix-socket-used/none", "unix-socket-used/implicit", "quicksend-dialogue", "quicksend-authenticated", "port-policy-variant/1", "port-policy-variant/2", "configured-through-setters", "second-dial-judged",
 				"tls-established/mandatory", "tls-established/opportunistic", "tls-established/implicit", "authenticated/PLAIN", "authenticated/SCRAM-SHA-256-PLUS")
 		},
 		Replay: func(r *vf.Run, kase json.RawMessage) {
